@@ -366,10 +366,63 @@ func (s *OpSites) PickBlocked(w *World, t *Task) *Task {
 	return s.buf[w.schedRng.Intn(len(s.buf))]
 }
 
+// Staller wraps a strategy and injects one stalled-task fault per run: at step At the running task is
+// taken off the processor for Len scheduling points of the others ("slow or stalled node"; any Go
+// schedule may do that to a goroutine). Everything else is the inner strategy's. Code that waits for
+// another task with a bounded spin, a retry budget or a timeout meets its limit only this way.
+type Staller struct {
+	Inner   Strategy
+	At, Len uint64
+	done    bool
+	buf     []*Task
+}
+
+func (s *Staller) Name() string              { return s.Inner.Name() + "+stall" }
+func (s *Staller) Init(w *World)             { s.Inner.Init(w) }
+func (s *Staller) OnSpawn(w *World, t *Task) { s.Inner.OnSpawn(w, t) }
+func (s *Staller) OnWake(w *World, t *Task)  { s.Inner.OnWake(w, t) }
+func (s *Staller) OnSpin(w *World, t *Task)  { s.Inner.OnSpin(w, t) }
+func (s *Staller) PickPoint(w *World, t *Task) *Task {
+	if !s.done && w.Steps >= s.At {
+		s.done = true
+		if w.BeginStall(t, s.Len) {
+			s.buf = w.Runnable(t, s.buf)
+			if len(s.buf) > 0 {
+				return s.buf[w.schedRng.Intn(len(s.buf))]
+			}
+		}
+	}
+	return s.Inner.PickPoint(w, t)
+}
+func (s *Staller) PickBlocked(w *World, t *Task) *Task {
+	c := s.Inner.PickBlocked(w, t)
+	if c != nil && c == w.stall {
+		s.buf = w.Runnable(t, s.buf)
+		if len(s.buf) > 0 {
+			return s.buf[0]
+		}
+	}
+	return c
+}
+
 var forceStrategy = os.Getenv("VERIF_STRATEGY") // development aid: pin the strategy of every run
 
-// DrawStrategy picks a strategy for a run from the schedule stream (swarm).
+// DrawStrategy picks a strategy for a run from the schedule stream (swarm); one run in six also gets a
+// stalled-task fault.
 func DrawStrategy(r *Rng, horizon uint64) Strategy {
+	s := drawStrategy(r, horizon)
+	if forceStall == "1" || (forceStall == "" && r.Intn(6) == 0) {
+		if horizon < 200 {
+			horizon = 200
+		}
+		return &Staller{Inner: s, At: r.Uint64() % horizon, Len: 64 << uint(r.Intn(7))}
+	}
+	return s
+}
+
+var forceStall = os.Getenv("VERIF_STALL") // development aid: "1" every run, "0" never
+
+func drawStrategy(r *Rng, horizon uint64) Strategy {
 	if horizon < 200 {
 		horizon = 200
 	}
